@@ -143,7 +143,62 @@ def _helper_value(program, f, elt, var):
     return norm(R().visit(ast.parse(t, mode='eval').body))
 
 
+def _resolve_splats(text, tr, at):
+    """`f(*xs, **kw)` with xs / kw locals bound to fresh copies (`xs =
+    list(E)`): the locals are replaced by what they were bound to."""
+    try:
+        n = ast.parse(text, mode='eval').body
+    except SyntaxError:
+        return text
+    if not isinstance(n, ast.Call):
+        return text
+    upto = next((i for i, e in enumerate(tr) if e is at), len(tr))
+
+    def bound(name):
+        for e in reversed(tr[:upto]):
+            if e.kind == 'local' and isinstance(e.target, ast.Name) \
+                    and e.target.id == name and e.sym is not None:
+                return e.sym.node
+        return None
+    for a in n.args:
+        if isinstance(a, ast.Starred) and isinstance(a.value, ast.Name):
+            b = bound(a.value.id)
+            if b is not None:
+                a.value = b
+    for k in n.keywords:
+        if k.arg is None and isinstance(k.value, ast.Name):
+            b = bound(k.value.id)
+            if b is not None:
+                k.value = b
+    return norm(n)
+
+
+def _unwrap_splats(text):
+    """`f(*list(a), **dict(k))` passes exactly the objects `f(*a, **k)` passes:
+    the unpacking copies the elements out either way (a structural DEEP copy -
+    the module's own copier - is not such a no-op: it replaces lists / dicts
+    the references resolved to)."""
+    try:
+        n = ast.parse(text, mode='eval').body
+    except SyntaxError:
+        return text
+    if not isinstance(n, ast.Call):
+        return text
+    for a in n.args:
+        if isinstance(a, ast.Starred) and isinstance(a.value, ast.Call) \
+                and dotted(a.value.func) in ('list', 'tuple') \
+                and len(a.value.args) == 1 and not a.value.keywords:
+            a.value = a.value.args[0]
+    for k in n.keywords:
+        if k.arg is None and isinstance(k.value, ast.Call) and dotted(
+                k.value.func) == 'dict' and len(k.value.args) == 1 \
+                and not k.value.keywords:
+            k.value = k.value.args[0]
+    return norm(n)
+
+
 def _through_strategy(program, f, text, collisions):
+    text = _unwrap_splats(text)
     """`strategy(T, *A, **K)` where `strategy` is a parameter of f whose
     default is a module-level `def F(factory, /, *args, **kwargs): return
     factory(*args, **kwargs)` reads `T(*A, **K)` (the call made when the
@@ -222,8 +277,8 @@ def check_populate(program, rep):
             seen['proc'] += 1
             want = (f"{p0}['type'](*{p0}.get('args', []), "
                     f"**{p0}.get('kwargs', {{}}))")
-            a = [_through_strategy(program, f, norm(x), collisions)
-                 for x in c.sym.node.args]
+            a = [_through_strategy(program, f, _resolve_splats(
+                norm(x), tr, c), collisions) for x in c.sym.node.args]
             if a != [want] or c.sym.node.keywords:
                 bad = bad or (c.node, 'the processor is not built as '
                               "type(*args, **kwargs) from its dict: "
@@ -301,8 +356,8 @@ def check_populate(program, rep):
                     seen['comp'] += 1
                     want = (f"{c0}['type'](*{c0}.get('args', []), "
                             f"**{c0}.get('kwargs', {{}}))")
-                    got = _through_strategy(program, f, norm(
-                        x.sym.node.args[0]), collisions)
+                    got = _through_strategy(program, f, _resolve_splats(
+                        norm(x.sym.node.args[0]), tr, x), collisions)
                     if got != want:
                         bad = bad or (x.node, 'the component is not built as '
                                       'type(*args, **kwargs) from its dict: '
